@@ -183,9 +183,24 @@ func checkPatternSentinelWrites(p *Prog, r *Result, rule string) {
 			if e.Cond == nil {
 				return f
 			}
-			be, ok := ast.Unparen(e.Cond).(*ast.BinaryExpr)
+			be0, ok := ast.Unparen(e.Cond).(*ast.BinaryExpr)
 			if !ok {
 				return f
+			}
+			// the constant may be written on either side
+			be := *be0
+			if tv, isC := info.Types[be.X]; isC && tv.Value != nil {
+				be.X, be.Y = be.Y, be.X
+				switch be.Op {
+				case token.LSS:
+					be.Op = token.GTR
+				case token.LEQ:
+					be.Op = token.GEQ
+				case token.GTR:
+					be.Op = token.LSS
+				case token.GEQ:
+					be.Op = token.LEQ
+				}
 			}
 			if o := identObj(be.X); o != nil {
 				switch {
